@@ -33,6 +33,8 @@ func runC18(c *ctx, cfgNames []string) []procOut {
 				nCold = 16
 			}
 			var coldViol []violation
+			var coldFailed []string
+			coldHisto := map[string]int64{}
 			var coldEvals int64
 			for k := 0; k < nCold; k++ {
 				cc := configs[cn]
@@ -40,6 +42,11 @@ func runC18(c *ctx, cfgNames []string) []procOut {
 				if cpo.res != nil {
 					coldViol = append(coldViol, cpo.res.Violations...)
 					coldEvals += cpo.res.Evaluations
+					for hk, hv := range cpo.res.Histo {
+						coldHisto[hk] += hv
+					}
+				} else {
+					coldFailed = append(coldFailed, fmt.Sprintf("cold-start process %d (%s) gave no result: exit=%d %s", k, cn, cpo.exitCode, tail(cpo.stderr, 300)))
 				}
 			}
 			po := c.runConfig(configs[cn], 8, nil, env, "")
@@ -51,6 +58,10 @@ func runC18(c *ctx, cfgNames []string) []procOut {
 					po.res.Histo = map[string]int64{}
 				}
 				po.res.Histo["coldstart/processes"] += int64(nCold)
+				for hk, hv := range coldHisto {
+					po.res.Histo[hk] += hv
+				}
+				po.res.Inconclusive = append(po.res.Inconclusive, coldFailed...)
 			}
 			files, _ := filepath.Glob(logBase + ".*")
 			type rep struct {
